@@ -95,6 +95,7 @@ type derefCell struct{ *ssa.Alloc }
 
 func (pc *pCtx) p3Frame(s *pSite) {
 	props := []string{"C12"}
+	pc.p3SharedObjects(s)
 	_, hot := pc.annotated(s.Name, "hot")
 	type key struct{ role, cell string }
 	seen := map[key]bool{}
@@ -190,6 +191,27 @@ func (pc *pCtx) p3Lazy(sites []*pSite, only string) {
 			}
 			tops = append(tops, fn)
 			byTop[fn] = []*pSite{ps}
+			// the lambdas such a function hands to the operator it delegates to run once per item of every subscription:
+			// library objects allocated next to them (when the operator value is built) are shared
+			sh := &pSite{opSite: &opSite{Subscribe: fn}, Name: name, Top: fn, Pkg: p, InTree: map[*ssa.Function]bool{}, parent: ps.parent}
+			for _, f := range closureTree(fn) {
+				if f != fn {
+					sh.InTree[f] = true
+					sh.Closures = append(sh.Closures, f)
+				}
+			}
+			if only == "" || strings.Contains(name, only) {
+				switch {
+				case strings.Contains(p, "/ee/plugins/prometheus"):
+					pc.curExtra = []string{"C19"}
+				case strings.Contains(p, "/plugins/ratelimit"):
+					pc.curExtra = []string{"C20"}
+				case strings.Contains(p, "/plugins/"):
+					pc.curExtra = []string{"C18"}
+				}
+				pc.p3SharedObjects(sh)
+				pc.curExtra = nil
+			}
 		}
 	}
 	for _, top := range tops {
@@ -1461,4 +1483,81 @@ func (pc *pCtx) f1Implementors() {
 	}
 	pc.add(props, "F1/observable-implementors", "every type implementing Observable is one of the audited gate types (observableImpl, the connectable observable, the subjects)", len(extra) == 0,
 		fmt.Sprintf("implementors found %v; not audited: %v", found, extra), "")
+}
+
+
+// readOnlyMethods: methods of library types that do not change the receiver (or whose receiver is designed to be shared).
+var readOnlyTypes = map[string]bool{
+	"regexp.Regexp": true, "text/template.Template": true, "html/template.Template": true, "time.Location": true,
+	"encoding/base64.Encoding": true, "math/big.Float": false,
+}
+
+// p3SharedObjects: a method with a pointer receiver called on an object that lives outside the subscription (handed to the
+// constructor, or allocated when the operator was built) may mutate it; every subscription then works on the same
+// object. Allowed: synchronisation types, observables / subscriptions, types known to be immutable after construction,
+// and sites declared `hot` or `shared <name> : reason`.
+func (pc *pCtx) p3SharedObjects(s *pSite) {
+	_, hot := pc.annotated(s.Name, "hot")
+	sharedDecl, _ := pc.annotated(s.Name, "shared")
+	seen := map[string]bool{}
+	for _, fn := range s.Closures {
+		for _, b := range fn.Blocks {
+			for _, ins := range b.Instrs {
+				call, ok := ins.(*ssa.Call)
+				if !ok || call.Common().IsInvoke() {
+					continue
+				}
+				f := call.Common().StaticCallee()
+				if f == nil || f.Signature.Recv() == nil || len(call.Common().Args) == 0 || f.Pkg == nil {
+					continue
+				}
+				pt, isPtr := f.Signature.Recv().Type().Underlying().(*types.Pointer)
+				if !isPtr || isRoPkg(pkgPathOf(f)) || isSyncType(pt.Elem()) {
+					continue
+				}
+				named, _ := pt.Elem().(*types.Named)
+				tname := ""
+				if named != nil && named.Obj().Pkg() != nil {
+					tname = named.Obj().Pkg().Path() + "." + named.Obj().Name()
+				}
+				if readOnlyTypes[tname] {
+					continue
+				}
+				// where does the receiver live?
+				recv := call.Common().Args[0]
+				root := s.root(stripLoad(recv))
+				outside := false
+				what := ""
+				switch t := root.(type) {
+				case *ssa.Alloc:
+					outside = !s.InTree[t.Parent()]
+					what = cellName(t)
+				}
+				// (an object handed to the constructor, or a global such as os.Stdout, is the caller's resource: a reader,
+				// a writer, a limiter - sharing it between subscriptions is what the caller asked for)
+				if al, ok := root.(*ssa.Alloc); ok && outside {
+					// a cell that merely holds a constructor parameter is the caller's object as well
+					for _, r := range *al.Referrers() {
+						if st, ok := r.(*ssa.Store); ok && st.Addr == ssa.Value(al) {
+							if _, isParam := st.Val.(*ssa.Parameter); isParam {
+								outside = false
+							}
+						}
+					}
+				}
+				if !outside {
+					continue
+				}
+				key := what + "." + f.Name()
+				if seen[key] {
+					continue
+				}
+				seen[key] = true
+				declared := hot || (sharedDecl != "" && strings.Contains(" "+strings.SplitN(sharedDecl, ":", 2)[0]+" ", " "+what+" "))
+				pc.add([]string{"C12"}, fmt.Sprintf("P3/%s/shared-object:%s/%s", s.Name, what, f.Name()),
+					"a pointer-receiver method of a library type is not called on an object shared by every subscription (allocated when the operator was built or applied) unless the type is immutable after construction or the site declares the object shared", declared,
+					fmt.Sprintf("(%s).%s is called on %s, which lives outside the subscription (%s)", tname, f.Name(), what, pc.pos(ins.Pos())), pc.pos(ins.Pos()))
+			}
+		}
+	}
 }
